@@ -1214,6 +1214,11 @@ class n0dict(n0dict_):
                         # Not correct: indulge #2 in incorrect syntax -- [*] was skipped for list in xpath
                         # *******************************
                         return n0dict._find(self, ["[*]"] + xpath_list, parent_node, return_lists, xpath_found_str)
+                    if isinstance(parent_node, (list, tuple)):
+                        #--------------------------------
+                        # NOT FOUND: no records to select from in an empty list
+                        #--------------------------------
+                        return parent_node, None, None, xpath_found_str, xpath_list
 
                     if not isinstance(parent_node, dict):
                         raise IndexError(f"If key '{node_index[0]}' is set, then ({type(parent_node)})'{str(parent_node)}' must be n0dict at '{xpath_found_str}'")
